@@ -49,6 +49,9 @@ def gen_cases(ctx):
             add(bytes.fromhex(d.get("secret", "")), False, d["lv"], cfg, d["v6"], d["transport"], d["params"], "replay")
             if d.get("dual"):
                 cases[-1]["dual"] = d["dual"]
+            if d.get("gens"):
+                cases[-1]["gens"] = {g: c14.from_json({"op": "select", "cfg": cf, "lv": 0, "v6": False})["cfg"] for g, cf in d["gens"].items()}
+                cases[-1]["gen"] = d["gen"]
     # the two checked-in subnet files, as the suite uses them
     w9, w1 = 9, 1
     shipped = {"groups": [{"w": w9, "nets": [c14.net(4, 0xC07ABE00, 24), c14.net(6, 0x200148A8687F0001 << 64, 64)], "rp": True},
@@ -136,6 +139,22 @@ def gen_cases(ctx):
             found += 1
             if found >= (2 if quick else 8):
                 break
+    # 7. two registrations in a row for two generations of ONE selector that list the same CIDR strings with opposite
+    #    port-randomisation flags (the shape of generations 1 and 957 of the checked-in subnet files), both orders,
+    #    libver 3/4, randomising transports: the port is part of the statement
+    for k in range(4 if quick else 24):
+        n4 = c14.net(4, rng.getrandbits(32) | (1 << 31), rng.choice([16, 20, 24]))
+        n6 = c14.net(6, rng.getrandbits(128) | (1 << 127), rng.choice([48, 64, 96]))
+        first = bool(k & 1)
+        gens = {"1": {"groups": [{"w": 1, "nets": [dict(n4), dict(n6)], "rp": first}]},
+                "957": {"groups": [{"w": 1, "nets": [dict(n4), dict(n6)], "rp": not first}]}}
+        tr = ["min", "obfs4", "dtls", "prefix"][k % 4]
+        for gen in ("1", "957", "1"):
+            lv = rng.choice([3, 4])
+            add(rand_secret(rng), False, lv, gens[gen], bool(k & 2), tr,
+                {"kind": "explicit", "rand": True, "prefix": 4 if tr == "prefix" else None}, "gen-seq")
+            cases[-1]["gens"] = gens
+            cases[-1]["gen"] = int(gen)
     # 6. legacy (libver 0/1) and current derivations from concurrent station workers on ONE registration manager:
     #    "for any registration" includes registrations ingested at the same time
     items = []
@@ -153,6 +172,9 @@ def to_json(c):
          "v6": c["v6"], "transport": c["transport"], "params": c["params"]}
     if c.get("dual"):
         d["dual"] = c["dual"]
+    if c.get("gens"):
+        d["gens"] = {g: c14.cfg_json(cf) for g, cf in c["gens"].items()}
+        d["gen"] = c["gen"]
     if c.get("conc"):
         d["conc"] = {"workers": c["conc"]["workers"], "rounds": c["conc"]["rounds"],
                      "items": [{"secret": it["secret"].hex(), "lv": it["lv"], "v6": it["v6"]} for it in c["conc"]["items"]]}
@@ -258,6 +280,15 @@ def oracle(ctx, c, r):
         return "diff"
     # port: the dialer's policy on top of the transport's choice
     flag = cl["rp"] if cl["has_rp"] else False
+    if c.get("gens") and c["cfg"] and len({bool(g["rp"]) for g in c["cfg"]["groups"]}) == 1:
+        # the client's ClientConf says what this generation's subnets allow; a flag observed in this process may
+        # come from another generation that lists the same CIDR string
+        conf_flag = bool(c["cfg"]["groups"][0]["rp"])
+        if cl["has_rp"] and cl["rp"] != conf_flag:
+            ctx.fail("flag/client-entry-point/other-generation", "SelectPhantom grants port randomisation=%s for generation %d whose "
+                     "subnets say %s (another generation lists the same CIDR string with the other flag and was used earlier)"
+                     % (cl["rp"], c["gen"], conf_flag), brief(c, r))
+        flag = conf_flag
     if lv < 3 or not flag:
         cport = 443
     elif cl["perr"]:
@@ -385,7 +416,7 @@ def run(ctx):
                     "client": {k: r["client"][k] for k in ("ip", "port", "tag", "seed", "wire")}})
     need = ["%s/lv%d/agree" % (t, lv) for t in ("min", "obfs4", "dtls") for lv in range(5)]
     need += ["prefix/lv3/agree", "prefix/lv4/agree", "prefix/lv1/station-err", "min/lv0/legacy-divergence/varint-overflow",
-             "tag:varint-overflow/agree", "tag:legacy-nil-group/agree", "tag:port-top/agree", "tag:port-reject/agree", "conc/station", "dual/obfs4/2-regs",
+             "tag:varint-overflow/agree", "tag:legacy-nil-group/agree", "tag:port-top/agree", "tag:port-reject/agree", "tag:gen-seq/agree", "conc/station", "dual/obfs4/2-regs",
              "dual/min/2-regs", "dual/prefix/2-regs", "dual/dtls/2-regs", "dual/obfs4/1-regs"]
     need += ["params:%s/%s" % (t, k) for t in TRS for k in ("absent", "default", "explicit")]
     ctx.require_kinds(need)
